@@ -599,8 +599,20 @@ Definition spec_fields (f : list bytes) : option bytes :=
     if (0 <=? d)%Z && (d <=? 12)%Z then Some (s2b "ok:" ++ hex_of (pad_dec (Z.to_nat d) (parse_N (a 1%nat)))) else None
   else None.
 
+(** [conc g p rounds adv x<lines>]: the operations are pure functions of their arguments, so under any
+    schedule every one of them answers what it answers alone; [canary layout <case>]: the inner
+    operation, and a report that no memory the caller can see was written (C11, C12) *)
+Definition run_top (f : list bytes) : bytes * bool :=
+  let op := fld f 0 in
+  if bytes_eqb op (s2b "conc") then
+    let subs := map (fun l => run_fields (split_on 32 l)) (split_on 10 (unhx (fld f 5))) in
+    (join 59 (map fst subs), forallb snd subs)
+  else if bytes_eqb op (s2b "canary") then
+    let '(out, dom) := run_fields (skipn 2 f) in (out ++ s2b "|mem:clean", dom)
+  else run_fields f.
+
 Definition run_case (line : bytes) : bytes :=
   let f := split_on 32 line in
-  let '(out, dom) := run_fields f in
+  let '(out, dom) := run_top f in
   out ++ [9] ++ (if dom then [49] else [48]) ++ [9] ++
       (if dom then match spec_fields f with Some sp => sp | None => [45] end else [45]).
